@@ -12,4 +12,4 @@ META = {
 
 
 def TASKS(tier):
-    return join_tasks(tier, 'join')
+    return join_tasks(tier, 'join') + interval_join_tasks(tier, 'interval_join')
